@@ -25,7 +25,7 @@ def run(ctx):
            cells=[('code%d' % c, [{'code_i': c}]) for c in range(NC)], timeout=tmo, confirm='confirm_formats',
            desc='every exported error class x 9 mimetypes x 9 details (incl. 4-5 KB texts with markup characters around the 4 KB mark) x default/overridden code: status == code, class code == http.HTTPStatus by name, '
                 'adapt(): body == to_<fmt>(), Content-Type agrees, JSON parses with the 4 fields, XML well formed, markup escaped'),
-        Ob('negotiation', 'ob_negotiation', '', packed=[('code_i', NC), ('choice', 6), ('which', 2), ('pre_i', 6)],
+        Ob('negotiation', 'ob_negotiation', '', packed=[('code_i', NC), ('choice', 6), ('which', 2), ('pre_i', 7)],
            cells=[('code%d' % c, [{'code_i': c}]) for c in range(NC)], timeout=tmo, confirm='confirm_negotiation',
            desc='ErrorHandler.render_error / default_render_error return the same error adapted to exactly what best_match chose - also when the error instance was already in another format (served before, or built with mimetype=) (stub: any element or None -> text/plain)'),
     ]
@@ -33,7 +33,7 @@ def run(ctx):
     import harness.c09 as H
     from vlib.common import write_replay
     bad = 0
-    for a in range(12):
+    for a in range(14):
         for c in range(0, NC, 3):
             res.traces_validated += 1
             try:
